@@ -355,6 +355,35 @@ fn s_bytes(t: &mut Tape, ctx: &mut Ctx) -> Result<(), Failure> {
         (Ok(got), false) => return Err(Failure::new("c11:malformed-byte-literal-accepted", format!("`{lit}` at {ty} ({label}) must be rejected but parses to {got}")).with(detail)),
         (Err(_), false) => {}
     }
+    // the same digits at an array whose elements are not bytes, alone and as an element of an
+    // outer array / list: whatever is returned must be of the requested type (a hex string has no
+    // meaning there, so in practice: rejected), and nothing panics
+    if t.chance(1, 3) {
+        let elem = match t.index(8) {
+            0 => Ty::UInt(1),
+            1 => Ty::UInt(4),
+            2 => Ty::UInt(16),
+            3 => Ty::UInt(32),
+            4 => Ty::Bool,
+            5 => Ty::unit(),
+            6 => Ty::array(Ty::UInt(8), 1),
+            _ => Ty::option(Ty::UInt(8)),
+        };
+        let inner = Ty::array(elem, n);
+        let (oty, otext) = match t.index(4) {
+            0 => (inner.clone(), lit.clone()),
+            1 => (Ty::array(inner.clone(), 1), format!("[{lit}]")),
+            2 => (Ty::list(inner.clone(), 2), format!("list![{lit}]")),
+            _ => (Ty::option(inner.clone()), format!("Some({lit})")),
+        };
+        let orty = conv::to_resolved(&oty);
+        ctx.evals(1);
+        ctx.label("bytes:at-non-byte-array");
+        let parsed = catch(|| Value::parse_from_str(&otext, &orty).map(|v| (v.is_of_type(&orty), v.to_string())).map_err(|e| e.to_string())).map_err(|p| pfail("Value::parse_from_str", &p, &otext))?;
+        if let Ok((false, shown)) = parsed {
+            return Err(Failure::new("c11:literal-value-not-of-requested-type", format!("`{otext}` at {oty} parses to `{shown}`, which is not a value of that type")).with(json!({"literal": otext, "type": oty.to_string()})));
+        }
+    }
     ctx.nontrivial(digest(&[lit.as_bytes(), &n.to_le_bytes()]));
     ctx.sample(lit.len() as u64, || detail.clone());
     let _ = HashMap::<u8, u8>::new();
@@ -371,7 +400,7 @@ pub fn streams() -> Vec<Stream> {
 pub fn def() -> PropertyDef {
     PropertyDef {
         id: "C11",
-        rule: "literals: width N in {1,2,4,8,16,32,64,128,256} x value (0, 1, 2, 2^N-1, powers of ten and neighbours, alternating bit patterns, random) x notation {decimal, binary, hex} x decoration (underscores anywhere incl. leading / trailing / doubled, up to 90 leading zeros, one digit more / fewer, digit string of another width, 2^N and 2^N+1, 90-110 digit runs, upper-case hex, no digit at all). Oracle: own big-integer arithmetic (schoolbook on 32-bit limbs) gives the mathematical value and the accept / reject verdict of the statement; Value::parse_from_str(lit, uN) must equal the value built with the Rust constructors or be Err; `let x: uN = LIT; assert!(eq(x, witness::W))` must be accepted iff valid, succeed for W = value and fail for W with one bit flipped (through commit / satisfy / encode / decode / Bit Machine); the printed integer parses back. bytes: hex literals at [u8; n], n in 0..64, exact / odd / one byte more / fewer. evaluations = parses + program runs. Non-trivial = decorated or boundary literal; distinct by digest of (literal, width).",
+        rule: "literals: width N in {1,2,4,8,16,32,64,128,256} x value (0, 1, 2, 2^N-1, powers of ten and neighbours, alternating bit patterns, random) x notation {decimal, binary, hex} x decoration (underscores anywhere incl. leading / trailing / doubled, up to 90 leading zeros, one digit more / fewer, digit string of another width, 2^N and 2^N+1, 90-110 digit runs, upper-case hex, no digit at all). Oracle: own big-integer arithmetic (schoolbook on 32-bit limbs) gives the mathematical value and the accept / reject verdict of the statement; Value::parse_from_str(lit, uN) must equal the value built with the Rust constructors or be Err; `let x: uN = LIT; assert!(eq(x, witness::W))` must be accepted iff valid, succeed for W = value and fail for W with one bit flipped (through commit / satisfy / encode / decode / Bit Machine); the printed integer parses back. bytes: hex literals at [u8; n], n in 0..64, exact / odd / one byte more / fewer; in a third of the cases the same digits also at [T; n] for T in {u1,u4,u16,u32,bool,(),[u8;1],Option<u8>}, alone or inside an outer array / list / Some: the result must be Err or a value of the requested type, and must not panic. evaluations = parses + program runs. Non-trivial = decorated or boundary literal; distinct by digest of (literal, width).",
         assumptions: &[],
         streams,
         health: &[("literals", "lit:underscores", 100), ("literals", "lit:no-digit", 10), ("literals", "lit:overflow", 10)],
